@@ -120,11 +120,14 @@ func (p *StreamPool) Dump() {
 	}
 }
 
+// remove takes a connection out of the pool and makes the object available
+// for reuse. The caller holds conn.mu.
 func (p *StreamPool) remove(conn *connection) {
 	p.mu.Lock()
-	if _, ok := p.conns[conn.key]; ok {
+	if c, ok := p.conns[conn.key]; ok && c == conn {
 		delete(p.conns, conn.key)
 		p.free = append(p.free, conn)
+		conn.removed = true
 	}
 	p.mu.Unlock()
 }
@@ -163,7 +166,11 @@ func (p *StreamPool) newConnection(k key, s Stream, ts time.Time) (c *connection
 	}
 	index := len(p.free) - 1
 	c, p.free = p.free[index], p.free[:index]
+	// an assembler that looked the object up under its previous key may be
+	// about to lock it: it must see either the old or the new state
+	c.mu.Lock()
 	c.reset(k, s, ts)
+	c.mu.Unlock()
 	return c, &c.c2s, &c.s2c
 }
 
